@@ -156,6 +156,7 @@ def run_raw(P, res, payload):
             res.violations.append({'what': 'list of %d commands (%s) is not rendered as %s' % (n, how, 'the bare command' if n == 1 else 'one ok_begin/end block in order'),
                                    'input': {'kind': 'raw', 'n': n, 'how': how, 'cmds': [hexs(model_bytes(m, d)) for d in datas]}})
         res.cls('raw n=%d' % n if n < 3 else 'raw n>=3', nontrivial=n >= 2)
+        res.xval_path('raw', replay, lambda: {'kind': 'raw', 'n': n, 'how': how, 'cmds': [hexs(model_bytes(ctx.model(), d)) for d in datas]})
         if len(res.samples) < 1:
             m = ctx.model()
             res.samples.append({'builder': how, 'commands': [model_bytes(m, d).decode('latin1') for d in datas], 'wire': model_bytes(m, wire).decode('latin1')})
@@ -215,6 +216,7 @@ def run_send(P, res, payload):
             res.violations.append({'what': '%s %s of %d command(s) over a transport taking %s bytes per write: the transport received %r' % (
                 flav, 'send' if single else 'send_list', n, mw or 'all', model_bytes(m, out)), 'input': rec})
         res.cls('sent n=%d' % min(n, 2), nontrivial=True)
+        res.xval_path('sent %s' % mw, replay, lambda: dict(rec, cmds=[hexs(model_bytes(ctx.model(), d)) for d in datas]))
         if len(res.samples) < 1:
             m = ctx.model()
             res.samples.append({'sent': flav, 'max_write': mw, 'wire': model_bytes(m, out).decode('latin1')})
@@ -266,6 +268,8 @@ def run_wire(P, res, payload):
         res.cls('wire n=%d' % min(n, 3), nontrivial=True)
         if bad:
             res.violations.append({'what': bad, 'input': rec})
+        else:
+            res.xval_path('wire', replay, lambda: rec)
         if len(res.samples) < 1:
             res.samples.append({'wire': flav, 'n': n, 'frames': None if frames is None else len(frames)})
         res.take_stats(pr.ctx.stats); pr.ctx.stats.__init__()
@@ -320,6 +324,8 @@ def run_typed(P, res, payload):
             res.cls('%s error propagated' % kind, nontrivial=True)
         if bad:
             res.violations.append({'what': bad, 'input': rec})
+        elif not failed:
+            res.xval_path('typed ' + r.variant, replay, lambda: rec)
         if len(res.samples) < 1:
             res.samples.append({'typed': kind, 'n': n, 'wire': bytes(wire).decode() if wire else None, 'result': r.variant,
                                 'conversions': [(k, frame_id(f)) for _, k, f in world]})
